@@ -193,21 +193,32 @@ Section Proto.
                   end
     end.
 
-  (* ---- the monitor of the property over the call log.  app k = number of scripts of stream k applied so
-     far, in file order without gaps.  A script may only be applied when all its predecessors were
-     (i <= app k); a version v may only be recorded when scripts 0..v-1 were applied (v <= app k). *)
-  Definition mon_step (app : stream -> nat) (e : event) : option (stream -> nat) :=
+  (* ---- the monitor of the property over the call log.  State: app k = number of scripts of stream k applied
+     so far, in file order without gaps; rec k = highest version recorded for stream k.
+     A script (k,i) may only take effect when all its predecessors did (i <= app k) and when its version
+     is not recorded yet (rec k <= i: what is recorded is never run again); a version v may only be recorded
+     when scripts 0..v-1 were applied (v <= app k). *)
+  Record mst := { m_app : stream -> nat; m_rec : stream -> nat }.
+  Definition mon_step (m : mst) (e : event) : option mst :=
     match e with
     | EScript k i r =>
       if res_applied r then
-        if i <=? app k then Some (fun k' => if stream_eqb k' k then Nat.max (app k') (S i) else app k') else None
-      else Some app
-    | EInsVer k v r => if res_applied r then (if v <=? app k then Some app else None) else Some app
-    | _ => Some app
+        if (m_rec m k <=? i) && (i <=? m_app m k)
+        then Some {| m_app := fun k' => if stream_eqb k' k then Nat.max (m_app m k') (S i) else m_app m k'; m_rec := m_rec m |}
+        else None
+      else Some m
+    | EInsVer k v r =>
+      if res_applied r then
+        if v <=? m_app m k
+        then Some {| m_app := m_app m; m_rec := fun k' => if stream_eqb k' k then Nat.max (m_rec m k') v else m_rec m k' |}
+        else None
+      else Some m
+    | _ => Some m
     end.
-  Fixpoint mon_run (app : stream -> nat) (l : list event) : option (stream -> nat) :=
-    match l with [] => Some app | e :: l' => match mon_step app e with Some a => mon_run a l' | None => None end end.
-  Definition mon_ok (l : list event) : bool := match mon_run (fun _ => 0) l with Some _ => true | None => false end.
+  Fixpoint mon_run (m : mst) (l : list event) : option mst :=
+    match l with [] => Some m | e :: l' => match mon_step m e with Some a => mon_run a l' | None => None end end.
+  Definition mst0 : mst := {| m_app := fun _ => 0; m_rec := fun _ => 0 |}.
+  Definition mon_ok (l : list event) : bool := match mon_run mst0 l with Some _ => true | None => false end.
 
   Definition is_script_event (e : event) : bool := match e with EScript _ _ _ | EInsVer _ _ _ => true | _ => false end.
 End Proto.
@@ -411,12 +422,12 @@ Section Obs.
 
   (* the monitor on observations: the stream in progress is the one of the last version read; a script
      statement is identified by content (sid): it must be the next unapplied script of that stream or one
-     applied before *)
-  Record omst := { om_cur : option stream; om_app : stream -> nat }.
+     applied whose version is not recorded yet *)
+  Record omst := { om_cur : option stream; om_app : stream -> nat; om_rec : stream -> nat }.
   Definition omon_step (m : omst) (e : oevent) : option omst :=
     match e with
     | OReadVer k _ _ => match stream_of_k k with
-                        | Some s => Some {| om_cur := Some s; om_app := om_app m |}
+                        | Some s => Some {| om_cur := Some s; om_app := om_app m; om_rec := om_rec m |}
                         | None => None
                         end
     | OScript sid r =>
@@ -426,15 +437,18 @@ Section Obs.
         | Some k =>
           let a := om_app m k in
           if (a <? List.length (sids k)) && N.eqb (sid_at k a) sid && negb (N.eqb sid 0) then
-            Some {| om_cur := om_cur m; om_app := fun k' => if stream_eqb k' k then S a else om_app m k' |}
-          else if existsb (N.eqb sid) (firstn a (sids k)) && negb (N.eqb sid 0) then Some m
-          else None
+            Some {| om_cur := om_cur m; om_app := fun k' => if stream_eqb k' k then S a else om_app m k'; om_rec := om_rec m |}
+          else if existsb (N.eqb sid) (skipn (om_rec m k) (firstn a (sids k))) && negb (N.eqb sid 0) then Some m
+          else None                         (* not the next script, nor one applied and not yet recorded *)
         end
       else Some m
     | OInsVer kn v r =>
       if res_applied r then
         match stream_of_k kn with
-        | Some k => if (N.to_nat v <=? om_app m k) then Some m else None
+        | Some k => if (N.to_nat v <=? om_app m k)
+                    then Some {| om_cur := om_cur m; om_app := om_app m;
+                                 om_rec := fun k' => if stream_eqb k' k then Nat.max (om_rec m k') (N.to_nat v) else om_rec m k' |}
+                    else None
         | None => None
         end
       else Some m
@@ -444,7 +458,7 @@ Section Obs.
   Fixpoint omon_run (m : omst) (l : list oevent) : option omst :=
     match l with [] => Some m | e :: l' => match omon_step m e with Some m' => omon_run m' l' | None => None end end.
   Definition omon_ok (l : list oevent) : bool :=
-    match omon_run {| om_cur := None; om_app := fun _ => 0 |} l with Some _ => true | None => false end.
+    match omon_run {| om_cur := None; om_app := fun _ => 0; om_rec := fun _ => 0 |} l with Some _ => true | None => false end.
 
   Definition o_is_script (e : oevent) : bool := match e with OScript _ _ | OInsVer _ _ _ | OOther _ => true | _ => false end.
 
